@@ -368,6 +368,7 @@ fn schedules(ctx: &Ctx, acc: &mut Acc, l: L, tier: Tier) {
         acc.transitions += ex.executions * ex.max_points as u64;
         acc.traces += ex.executions;
         acc.count("schedules_infeasible", ex.infeasible);
+        acc.count("schedules_with_a_blocked_thread_left_loose", ex.overlapped);
         acc.count("programs", 1);
         for o in &outcomes {
             acc.outcome(&(l.code(), o));
@@ -421,6 +422,9 @@ pub fn silent_child() -> i32 {
 pub fn run(tier: Tier) -> i32 {
     let ctx = Ctx::new("C14", tier);
     let mut acc = Acc::new();
+    // every mutating DigitString operation inside the library becomes a scheduling point
+    // (no-op for threads that are not under the scheduler)
+    text2num::verif::set_yield_hook(sched::point);
     // 1. histories
     for l in langs::ALL {
         histories(&ctx, &mut acc, l, tier.pick(2, 3));
@@ -478,7 +482,7 @@ pub fn run(tier: Tier) -> i32 {
     acc.nontrivial = acc.states;
     let cov = json!({
         "exhaustive": true,
-        "rule": "(1) every history of <= k calls from a 10-call alphabet (whole calls and abandoned lazy scans) on one shared interpreter and on two interleaved interpreters, plus every merge order of the next() calls of two live lazy searches; (2) for 2-thread (and some 3-thread) programs over the call alphabet sharing one interpreter, every interleaving of scheduling points (call boundaries + every library callback into harness code: stream next(), first Token/BasicAnnotate method call per token, set_nan, Replace::replace) with at most `preemption_bound` preemptions, explored by re-execution under a controlled scheduler (one thread runs at a time); every call's result compared with its sequential fresh-interpreter result; (3) compile probe for Send + Sync; (4) child process with piped stdout/stderr",
+        "rule": "(1) every history of <= k calls from a 10-call alphabet (whole calls and abandoned lazy scans) on one shared interpreter and on two interleaved interpreters, plus every merge order of the next() calls of two live lazy searches; (2) for 2-thread (and some 3-thread) programs over the call alphabet sharing one interpreter, every interleaving of scheduling points (call boundaries + every library callback into harness code: stream next(), first Token/BasicAnnotate method call per token, set_nan, Replace::replace + through the cfg-guarded yield hook the entry of every mutating DigitString operation inside the library) with at most `preemption_bound` preemptions, explored by re-execution under a controlled scheduler (one thread runs at a time); every call's result compared with its sequential fresh-interpreter result; (3) compile probe for Send + Sync; (4) child process with piped stdout/stderr",
         "bounds": {"history_depth": tier.pick(2, 3), "preemption_bound_two_threads": tier.pick(1, 2), "threads": "2 (all ordered call pairs), 3 (selected)", "calls": (0..NCALLS).map(call_name).collect::<Vec<_>>()},
         "note": "states = histories + merge orders + schedules executed; one distinct outcome per program is expected on code without shared mutable state; detection power is demonstrated by seeded mutants (DESIGN.md)",
     });
